@@ -285,6 +285,26 @@ def encPluginMessageWith (tr : Bytes → Bytes) (p : Int) (m : PluginMessage) : 
 def encPluginMessage : Int → PluginMessage → Option Bytes := encPluginMessageWith transformChannel
 def encPluginMessageDefective : Int → PluginMessage → Option Bytes := encPluginMessageWith transformChannelDefective
 
+/-! ### one packet object encoded several times (broadcast to connections of mixed versions)
+
+`Encode` has a pointer receiver; the state that matters is the `Channel` field of the object.
+`encPluginStep` is the source as it is: the transform is applied to the written copy only, the
+object is left unchanged.  `encPluginStepRewriting` is the variant that stores the transformed
+name back into `p.Channel` on a ≥1.13 encode. -/
+
+def encPluginStep (m : PluginMessage) (p : Int) : PluginMessage × Option Bytes :=
+  (m, encPluginMessage p m)
+
+def encPluginStepRewriting (m : PluginMessage) (p : Int) : PluginMessage × Option Bytes :=
+  let m' : PluginMessage := if p ≥ V.v1_13 then ⟨transformChannel m.channel, m.data⟩ else m
+  (m', encPluginMessage p m')
+
+/-- outputs of encoding the same object for the protocols `ps`, in that order -/
+def encHistory (step : PluginMessage → Int → PluginMessage × Option Bytes) :
+    PluginMessage → List Int → List (Option Bytes)
+  | _, [] => []
+  | m, p :: ps => let r := step m p; r.2 :: encHistory step r.1 ps
+
 /-! ## player info -/
 
 /-- `chat.RemoteChatSession` -/
